@@ -41,6 +41,7 @@ func init() {
 		Rule: "case = (list function, block): a block of histories on one World; every history starts from no data, an empty list or a generated list and applies 4-6 updates of shapes drawn from " +
 			"{full, partial with identifiers, identifier-less item, partial+selector, delete+selector, delete+elements, delete+selector+elements, delete combined with partial} over an identifier domain of 4 " +
 			"(multi-key types: no single key field is unique), delivered through FeatureRemote.UpdateData, real reply/notify datagrams (a fifth of the histories) or FeatureLocal.UpdateData/SetData; two identically numbered peers, each history addresses one store. " +
+			"Every sixth update carries a selector that is a conjunction of two to five elements (partial+selector, delete+selector, delete+selector+elements, delete combined with partial): the complete identifier plus one or two further elements the selector type can name, or - delete filters only - any two or three elements (parts of a multi-key identifier, elements outside the identifier); the values are those of one stored item in all elements, or in all but one (an element outside the identifier differs, or an identifier element differs: the value of another stored item or a fresh one), or the stored item lacks a named element; an item matches iff it has every named element with the named value. " +
 			"The data features are Generic ones in even rounds and of the function's own feature type in odd rounds; every store also holds a sentinel list or value in a SECOND function, which no update may move; a delete filter with elements names one to three fields; " +
 			"the identifier fields of every list function, the set of list functions and the set of selector types that do not cover the identifier are compared with tables pinned in the check. " +
 			"After every update the stored list is compared with the reference fold, checked for unique identifiers and numeric order, the same function's data of the other stores must not have moved, and the update is applied again (idempotence). " +
@@ -51,6 +52,8 @@ func init() {
 			"for the list type without key fields only 'replace' and 'clear the named fields' are judged; selector shapes are skipped for selector types that do not cover all key fields of the item",
 			"for items whose second key is not numeric the order among equal numeric keys is not fixed: multiset equality plus non-decreasing numeric identifiers is demanded",
 			"the items of a datagram are taken as the receiver decodes them (JSON fidelity is C18's subject)",
+			"selectors naming several elements: only elements for which the item has a single-valued field of the same name and kind are named (not timestampInterval and the like, not elements referring to a list-valued item field); a partial update always names the complete identifier, so 'the matching item' is unique; an item that lacks a named element does not match",
+			"idempotence is not demanded of a delete combined with partial whose merge gives an item exactly the value its own delete selector names for an element outside the identifier (the fold of that update is itself not idempotent; counted not-judged:idempotence...): the second application is compared with the fold of the sequence holding the update twice",
 			"a non-persisting update (FeatureRemote.UpdateData with persist=false: the update that follows, or a different one) returns the fold and leaves the store as it was",
 		},
 		Parts: []rig.Part{{
@@ -445,7 +448,7 @@ func c02NonCoveringProbe(c *rig.Ctx, lw *listWorld) {
 
 // c02WidenElems lets a delete filter with elements name one to three non-identifier fields.
 func c02WidenElems(c *rig.Ctx, li *rig.ListInfo, u *rig.Update) {
-	if u.Kind != "delete-elem" && u.Kind != "delete-sel-elem" {
+	if u.Kind != "delete-elem" && u.Kind != "delete-sel-elem" && u.Kind != "delete-sel-elem-conj" {
 		return
 	}
 	extra := c.Rand.Intn(3)
@@ -519,9 +522,9 @@ func (s *c02Store) set(data any) string {
 
 // apply delivers u; it returns the update as the store's owner received it, an error text if the
 // update was reported as failed, and the data the API call returned (nil if the path returns none).
-func (s *c02Store) apply(c *rig.Ctx, u rig.Update, variant int) (rig.Update, string, any) {
+func (s *c02Store) apply(c *rig.Ctx, u rig.Update, cj *c02Conj, variant int) (rig.Update, string, any) {
 	lw, li := s.lw, s.lw.li
-	fp, fd, _ := li.Filters(u)
+	fp, fd, _ := c02Filters(li, u, cj)
 	switch s.path {
 	case "remote-api":
 		var data any = li.MkList(rig.CloneItems(u.Items))
@@ -552,7 +555,7 @@ func (s *c02Store) apply(c *rig.Ctx, u rig.Update, variant int) (rig.Update, str
 			cl = model.CmdClassifierTypeReply
 		}
 		ack := variant%4 < 2
-		b, u2, mc, err := lw.wireFrom(s.peer, u, cl, s.remoteAddr, lw.localCli.Address(), ack)
+		b, u2, mc, err := c02WireFrom(lw, s.peer, u, cj, cl, s.remoteAddr, lw.localCli.Address(), ack)
 		if err != nil {
 			return u, "harness: " + err.Error(), nil
 		}
@@ -565,7 +568,7 @@ func (s *c02Store) apply(c *rig.Ctx, u rig.Update, variant int) (rig.Update, str
 			return u2, string(cl) + " answered with an error result: " + rig.JS(res.All), nil
 		}
 		c.Count("datagrams:"+string(cl), 1)
-		if fp, fd, _ := li.Filters(u2); fp != nil && fd != nil {
+		if fp, fd, _ := c02Filters(li, u2, cj); fp != nil && fd != nil {
 			if u2.PartialFirst {
 				c.Count("datagrams-with-two-filters:partial-filter-first", 1)
 			} else {
@@ -594,7 +597,7 @@ func c02OrderDemanded(kind string, orderedBefore bool) bool {
 	switch kind {
 	case "full":
 		return false
-	case "partial", "del+partial":
+	case "partial", "del+partial", "del-conj+partial":
 		return true
 	}
 	return orderedBefore
@@ -715,6 +718,15 @@ func c02Case(c *rig.Ctx) {
 					c.Count(fmt.Sprintf("delete-sel-multi:items-matched=%d", min(matched, 3)), 1)
 				}
 			}
+			// a selector is a conjunction of ALL the elements it names: every sixth update carries a selector naming two
+			// or more elements (the identifier plus further elements of the item, or a part of a multi-key identifier),
+			// built from the stored items so that it agrees with one of them in all, or in all but one, of the elements
+			var cj *c02Conj
+			if r.Intn(6) == 0 {
+				if cu, x, cok := c02GenConj(c, li, ref); cok {
+					u, cj = cu, x
+				}
+			}
 			c02WidenElems(c, li, &u)
 			variant := r.Intn(4)
 			if c02MaybeShuffle(c, &u) {
@@ -729,32 +741,36 @@ func c02Case(c *rig.Ctx) {
 			// that follows or a DIFFERENT one (an update that is applied for real right afterwards would hide a probe
 			// that wrote through).
 			if st.path == "remote-api" && variant == 3 {
-				up := u
+				up, upcj := u, cj
 				if r.Intn(2) == 0 {
 					for try := 0; try < 6; try++ {
 						if x, ok := genUpdate(c, li, c02Dom); ok && x.Kind != "full" {
-							up = x
+							up, upcj = x, nil
 							c02WidenElems(c, li, &up)
 							break
 						}
 					}
 				}
 				if up.Kind != "full" {
-					fp, fd, _ := li.Filters(up)
+					upDesc := up.String()
+					if upcj != nil {
+						upDesc += " " + upcj.String(li)
+					}
+					fp, fd, _ := c02Filters(li, up, upcj)
 					ret, e := st.remote.UpdateData(false, li.Fn, li.MkList(rig.CloneItems(up.Items)), fp, fd)
 					c.Count("nonpersisting-probes", 1)
 					if e != nil {
-						c.Violate(up.Kind+"/nonpersist-error", "%s: UpdateData(persist=false) failed: %s\n update: %s\n history: %s", li.Fn, e.String(), up, strings.Join(hist, "\n   "))
+						c.Violate(up.Kind+"/nonpersist-error", "%s: UpdateData(persist=false) failed: %s\n update: %s\n history: %s", li.Fn, e.String(), upDesc, strings.Join(hist, "\n   "))
 					} else if items, ok := itemsOfResult(li, ret); ok {
 						comparisons++
-						if want := li.RefApply(ref, up); rig.Multiset(items) != rig.Multiset(want) {
-							c.Violate(up.Kind+"/nonpersist-result-differs", "%s: UpdateData(persist=false) returned %s\n fold: %s\n update: %s\n history: %s", li.Fn, renderItems(items), renderItems(want), up, strings.Join(hist, "\n   "))
+						if want := c02Ref(li, ref, up, upcj); rig.Multiset(items) != rig.Multiset(want) {
+							c.Violate(up.Kind+"/nonpersist-result-differs", "%s: UpdateData(persist=false) returned %s\n fold: %s\n update: %s\n history: %s", li.Fn, renderItems(items), renderItems(want), upDesc, strings.Join(hist, "\n   "))
 						}
 					}
 					comparisons++
 					if got := st.read(); rig.Multiset(got) != before {
-						c.Violate(up.Kind+"/nonpersist-changed-store", "%s: UpdateData(persist=false) changed the stored data\n update: %s\n store before: %s\n store after:  %s\n history: %s", li.Fn, up, renderItems(ref), renderItems(got), strings.Join(hist, "\n   "))
-						c.Witness(map[string]any{"function": li.Fn, "history": hist, "nonpersisting_update": up.String(), "store": renderItems(got), "fold": renderItems(ref)})
+						c.Violate(up.Kind+"/nonpersist-changed-store", "%s: UpdateData(persist=false) changed the stored data\n update: %s\n store before: %s\n store after:  %s\n history: %s", li.Fn, upDesc, renderItems(ref), renderItems(got), strings.Join(hist, "\n   "))
+						c.Witness(map[string]any{"function": li.Fn, "history": hist, "nonpersisting_update": upDesc, "store": renderItems(got), "fold": renderItems(ref)})
 						ref = got
 						before = rig.Multiset(ref)
 					}
@@ -764,8 +780,12 @@ func c02Case(c *rig.Ctx) {
 			othersBefore := st.others()
 			sentinelBefore := sentinel.print(lw)
 			orderedBefore := orderedByNumericId(li, ref)
-			ur, errText, ret := st.apply(c, u, variant)
-			hist = append(hist, st.path+" "+ur.String())
+			ur, errText, ret := st.apply(c, u, cj, variant)
+			if cj != nil {
+				hist = append(hist, st.path+" "+ur.String()+" "+cj.String(li))
+			} else {
+				hist = append(hist, st.path+" "+ur.String())
+			}
 			if now := sentinel.print(lw); now != sentinelBefore {
 				c.Violate(u.Kind+"/other-function-changed", "%s via %s (peer %s): an update of this function changed the data of ANOTHER function (%s) of a feature\n update: %s\n before:\n%s\n after:\n%s", li.Fn, st.path, st.peer.Addr, sentinel.fn.Fn, ur, sentinelBefore, now)
 				sentinel = c02Sentinel{} // reported once
@@ -773,7 +793,7 @@ func c02Case(c *rig.Ctx) {
 			if now := st.others(); now != othersBefore {
 				c.Violate(u.Kind+"/other-store-changed", "%s via %s (peer %s): an update of one store changed the same function's data of another feature (the local one, or the identically numbered feature of the other peer)\n update: %s\n before:\n%s\n after:\n%s", li.Fn, st.path, st.peer.Addr, ur, othersBefore, now)
 			}
-			ref = li.RefApply(ref, ur)
+			ref = c02Ref(li, ref, ur, cj)
 			got := st.read()
 			comparisons++
 			dev := ""
@@ -800,17 +820,27 @@ func c02Case(c *rig.Ctx) {
 			}
 			if dev == "" {
 				// idempotence: the same update once more
-				if again := li.RefApply(ref, ur); rig.Multiset(again) != rig.Multiset(ref) {
-					c.Violate("harness-fold-not-idempotent", "%s %s", li.Fn, ur)
+				repeatDev := "not-idempotent"
+				if again := c02Ref(li, ref, ur, cj); rig.Multiset(again) != rig.Multiset(ref) {
+					if u.Kind != "del-conj+partial" {
+						c.Violate("harness-fold-not-idempotent", "%s %s", li.Fn, hist[len(hist)-1])
+					}
+					// a delete whose selector names a non-identifier element, combined with a partial update that gives an
+					// item exactly that value: the first application does not delete the item, the merge makes it match, the
+					// second application deletes it and merges into nothing. The fold of the sequence with the update given
+					// twice is what the statement fixes here; "changes nothing" is not demanded of such an update.
+					c.Count("not-judged:idempotence(the-merge-of-the-update-makes-an-item-match-its-own-delete-selector)", 1)
+					ref = again
+					repeatDev = "content-differs-on-repeat"
 				}
-				_, errText, _ = st.apply(c, u, variant)
+				_, errText, _ = st.apply(c, u, cj, variant)
 				got = st.read()
 				comparisons++
 				switch {
 				case errText != "":
 					dev = "error-on-repeat"
 				case rig.Multiset(got) != rig.Multiset(ref):
-					dev = "not-idempotent"
+					dev = repeatDev
 				case duplicateId(li, got) != "":
 					dev = "duplicate-identifier-on-repeat"
 				case c02OrderDemanded(u.Kind, orderedBefore) && !orderedByNumericId(li, got):
@@ -818,7 +848,7 @@ func c02Case(c *rig.Ctx) {
 				}
 			}
 			if dev != "" {
-				c.Violate(u.Kind+"/"+dev, "%s via %s: %s %s\n update:  %s\n store:   %s\n fold:    %s\n history:\n   %s", li.Fn, st.path, dev, errText, ur, renderItems(got), renderItems(ref), strings.Join(hist, "\n   "))
+				c.Violate(u.Kind+"/"+dev, "%s via %s: %s %s\n update:  %s\n store:   %s\n fold:    %s\n history:\n   %s", li.Fn, st.path, dev, errText, hist[len(hist)-1], renderItems(got), renderItems(ref), strings.Join(hist, "\n   "))
 				c.Witness(map[string]any{"function": li.Fn, "path": st.path, "history": hist, "store": renderItems(got), "fold": renderItems(ref), "deviation": dev, "detail": errText})
 				ref = st.read() // resynchronise so that one deviation is reported once
 			}
